@@ -76,6 +76,12 @@ def prog(t, bits):
     u = p.unpack()
     return p, u
 """
+DRIVER_NUMPY = """
+def prog(t, bits):
+    p = PackedTensor.pack(t, bits)
+    u = p.numpy()     # the values as an array: the same values, the same shape
+    return p, u
+"""
 DRIVER_MUT_RESULT = """
 def prog(t, bits):
     p = PackedTensor.pack(t, bits)
@@ -109,17 +115,17 @@ def roundtrip(run, tier):
     for bits in (2, 4):
         for rank in (1, 2, 3, 4):
             for device in ("cpu", "mps"):
-                for route in ("nondet", "disabled", "mutate-result", "mutate-input"):
+                for route in ("nondet", "disabled", "mutate-result", "mutate-input", "numpy"):
                     if device == "mps" and route != "nondet":
                         continue
-                    if route.startswith("mutate") and rank not in (1, 2):
+                    if (route.startswith("mutate") or route == "numpy") and rank not in (1, 2):
                         continue
                     inst = {"bits": bits, "rank": rank, "device": device, "route": route}
                     run.count_instance(**inst)
                     E, spec = make_engine(run, "nondet")
                     extra = {"disable_extensions": E.get(f"{OPS}::disable_extensions")}
                     prog = E.snippet({"disabled": DRIVER_DISABLED, "nondet": DRIVER, "mutate-result": DRIVER_MUT_RESULT,
-                                      "mutate-input": DRIVER_MUT_INPUT}[route], PACKED, extra)
+                                      "mutate-input": DRIVER_MUT_INPUT, "numpy": DRIVER_NUMPY}[route], PACKED, extra)
                     ds, dpos = lib.dims("d", rank)
 
                     def setup(E2, ds=ds, dpos=dpos, device=device, bits=bits, rank=rank):
@@ -146,6 +152,11 @@ def roundtrip(run, tier):
                             continue
                         nret += 1
                         p, u = r.value
+                        if route == "nondet":
+                            # the source is read-only for pack(): even a value-preserving in-place write fails on overlapping (broadcast) sources
+                            wr = [f"{w[0]} into {getattr(w[1], 'name', '?')} at {w[4]}" for w in r.writes if w[0] == "tensor" and isinstance(w[1], STensor) and w[1].root().name == "T"]
+                            run.add(f"C04/pack-does-not-write-its-source[{tag}]/path{pi}", r.hyps, z3.BoolVal(not wr), "property", inst, {"writes": wr[:3]},
+                                    replay=lambda m, s, b=bits, rk=rank: replay_source_readonly(m, s, b, rk))
                         # element obligations need the touched-index instantiation of "values fit in `bits` bits"
                         E.ps["touched"] = []
                         ids, inb = idx_vars("i", ds)
@@ -609,6 +620,8 @@ def replay_roundtrip(model, seed, bits, rank, route="nondet"):
                 if route == "mutate-input":
                     t |= 3
                 u = p.unpack()
+                if route == "numpy":
+                    u = torch.from_numpy(p.numpy())
                 s = (p + 0)
             except Exception as e:
                 return {"shape": shape, "bits": bits, "layout": lname, "route": route, "raised": repr(e)}
@@ -625,6 +638,33 @@ def replay_roundtrip(model, seed, bits, rank, route="nondet"):
 
 def replay_kernels(model, seed, bits):
     return None  # the compiled kernel cannot be built here: no native replay possible (A-CPP)
+
+
+def replay_source_readonly(model, seed, bits, rank):
+    """pack() of broadcast (overlapping) and of ordinary sources: no exception, source unchanged."""
+    import torch
+    from optimum.quanto.tensor.qbits.packed import PackedTensor
+
+    torch.manual_seed(seed)
+    top = 1 << bits
+    shape = [5, 3, 2, 2][:rank]
+    base = torch.randint(0, top, shape, dtype=torch.uint8)
+    srcs = {"contiguous": base.clone()}
+    if rank >= 2:
+        srcs["broadcast"] = torch.randint(0, top, [1] + shape[1:], dtype=torch.uint8).expand(*shape)
+        srcs["broadcast-last"] = torch.randint(0, top, shape[:-1] + [1], dtype=torch.uint8).expand(*shape)
+    else:
+        srcs["broadcast"] = torch.randint(0, top, [1], dtype=torch.uint8).expand(*shape)
+    for name, t in srcs.items():
+        want = t.clone()
+        try:
+            p = PackedTensor.pack(t, bits)
+            u = p.unpack()
+        except Exception as e:
+            return {"what": f"pack raises {type(e).__name__}: {str(e)[:140]}", "source": name, "bits": bits}
+        if not torch.equal(t, want) or not torch.equal(u, want):
+            return {"what": "pack changed its source or lost values", "source": name, "bits": bits}
+    return None
 
 
 def replay_dispatch(model, seed, inst):
